@@ -24,8 +24,9 @@ RULE = ("histories of <=24 operations (request / option change / add / load / cl
         "unserved recordings share the request's reference key, or a matching option changes while recordings are "
         "unserved; distinct by (options, recordings, operations) shape")
 ASSUMPTIONS = [
-    "requests are built with http.Request.make from simple ASCII components; no Host header that disagrees with the "
-    "destination host, no '#' in request targets, no commas in header values, no empty form bodies",
+    "requests are built with http.Request.make from simple ASCII components; the host of the matching key is the site the "
+    "request names (Host header when the request is sent to a bare address, as in transparent / reverse mode), never the "
+    "address it is sent to; no '#' in request targets, no commas in header values, no empty form bodies",
     "the served recording is recognised by the unique marker body of its response",
     "replay counts as active while the addon still holds recordings; when only response-less recordings may be left "
     "either 'active' or 'inactive' treatment of an unmatched request is accepted",
@@ -38,6 +39,7 @@ QUICK_N, THOROUGH_N = 14_000, 1_000_000
 METHODS = ["GET", "POST", "PUT"]
 SCHEMES = ["http", "https"]
 HOSTS = ["a.test", "b.test", "a.test.c.test"]
+ADDRS = [None, None, "192.0.2.10", "198.51.100.1"]
 PORTS = [80, 8080, 443]
 PATHS = ["/p", "/p/", "/p/q", "/P", "/p;v=1", "/p;v=2", "/"]
 QKEYS = ["x", "y", "t"]
@@ -75,6 +77,7 @@ _base = st.fixed_dictionaries({
     "method": st.sampled_from(METHODS),
     "scheme": st.sampled_from(SCHEMES),
     "host": st.sampled_from(HOSTS),
+    "addr": st.sampled_from(ADDRS),
     "port": st.sampled_from(PORTS),
     "path": st.sampled_from(PATHS),
     "query": st.lists(_pair(QKEYS, VALS), max_size=3),
@@ -89,6 +92,7 @@ def _all_muts():
     out = []
     out += [("method", m) for m in METHODS] + [("scheme", x) for x in SCHEMES]
     # the components that options can make irrelevant get double weight (merging / splitting keys is the point)
+    out += [("addr", a) for a in ADDRS] * 2
     out += [("host", h) for h in HOSTS] * 2 + [("port", p) for p in PORTS] * 2 + [("raw", r) for r in RAWS] * 2
     out += [("path", p) for p in PATHS]
     out += [("q_set", i, v) for i in range(3) for v in VALS]
@@ -158,7 +162,7 @@ def apply_muts(base, muts):
     d = {k: (list(map(list, v)) if isinstance(v, list) else v) for k, v in base.items()}
     for m in muts:
         t = m[0]
-        if t in ("method", "scheme", "host", "port", "path", "raw", "kind"):
+        if t in ("method", "scheme", "host", "addr", "port", "path", "raw", "kind"):
             d[t] = m[1]
         elif t == "q_set":
             if d["query"]:
@@ -235,8 +239,14 @@ def build_request(d):
     target = d["path"]
     if d["query"]:
         target += "?" + "&".join("%s=%s" % (k, v) for k, v in d["query"])
-    url = "%s://%s:%d%s" % (d["scheme"], d["host"], d["port"], target)
+    # "addr": where the request is sent to.  None = to the host it names (explicit proxy, no Host header needed);
+    # otherwise the connection goes to an address and the Host header names the site (transparent / reverse mode,
+    # virtual hosts): the *host* of the matching key is the site the request asks for, not the address it travels to
+    addr = d.get("addr")
+    url = "%s://%s:%d%s" % (d["scheme"], addr or d["host"], d["port"], target)
     headers = [(n.encode(), v.encode()) for n, v in d["headers"]]
+    if addr:
+        headers.insert(0, (b"Host", d["host"].encode()))
     if d["kind"] == "raw":
         pass
     elif d["fkind"] == "urlenc":
@@ -244,7 +254,7 @@ def build_request(d):
     else:
         headers.append((b"Content-Type", b"multipart/form-data; boundary=XbX"))
     r = http.Request.make(d["method"], url, body_bytes(d), headers)
-    if (r.host, r.port, r.scheme, r.method) != (d["host"], d["port"], d["scheme"], d["method"]):
+    if (r.host, r.port, r.scheme, r.method) != (addr or d["host"], d["port"], d["scheme"], d["method"]):
         from runner import HarnessError
         raise HarnessError("Request.make did not produce the described request: %r" % (d,))
     return r
